@@ -139,3 +139,57 @@ Definition slackb (c : cfg) (lS lE : list N) : bool :=
                     | Some T => N.ltb (tab lE n) (tab lS n + T)
                     | None => true
                     end) (all_ids c).
+
+(* ---------- shutdown handlers that take time ---------- *)
+
+(* like [plainT], shutdown handlers of any finite duration allowed *)
+Definition plainH_job (c : cfg) (x : nat) : bool :=
+  if j_sched (jc c x)
+  then Nat.eqb (j_window (jc c x)) 0 && (Nat.eqb x 0 || negb (j_forever (jc c x)))
+  else match j_dur (jc c x) with Some _ => true | None => false end
+       && negb (j_forever (jc c x))
+       && match j_sdur (jc c x) with Some _ => true | None => false end.
+Definition plainH (c : cfg) : bool := forallb (plainH_job c) (all_ids c).
+
+(* length of the shutdown phase of scheduler n once its main loop is over: its atomic jobs run their
+   handlers side by side (nested schedulers have shut down at their own end and answer at once),
+   cut by shutdown_timeout *)
+Definition sdurN (c : cfg) (x : nat) : N :=
+  if j_sched (jc c x) then 0%N else match j_sdur (jc c x) with Some d => d | None => 0%N end.
+Definition shut_len (c : cfg) (n : nat) : N :=
+  let d := maxl 0%N (map (sdurN c) (members c n)) in
+  match j_sdto (jc c n) with Some t => N.min t d | None => d end.
+
+(* the scheduling equations with the shutdown phase: a nested scheduler ends -- for the jobs that
+   require it -- when its own run does, i.e. after its shutdown phase *)
+Definition is_scheduleH (c : cfg) (S E : nat -> N) : Prop :=
+  S 0 = 0%N /\
+  forall x, x < njobs c ->
+    (x <> 0 -> S x = maxl (S (parent c x)) (map E (reqs c x))) /\
+    (j_sched (jc c x) = false -> E x = (S x + durN c x)%N) /\
+    (j_sched (jc c x) = true -> E x = (maxl (S x) (map E (members c x)) + shut_len c x)%N).
+
+Definition is_scheduleHb (c : cfg) (lS lE : list N) : bool :=
+  N.eqb (tab lS 0) 0
+  && forallb (fun x =>
+       (Nat.eqb x 0 || N.eqb (tab lS x) (maxl (tab lS (parent c x)) (map (tab lE) (reqs c x))))
+       && (if j_sched (jc c x)
+           then N.eqb (tab lE x) (maxl (tab lS x) (map (tab lE) (members c x)) + shut_len c x)
+           else N.eqb (tab lE x) (tab lS x + durN c x))) (all_ids c).
+
+Definition roundH (c : cfg) (SE : list N * list N) : list N * list N :=
+  let '(lS, lE) := SE in
+  let lS' := map (fun x => if Nat.eqb x 0 then 0%N
+                           else maxl (tab lS (parent c x)) (map (tab lE) (reqs c x))) (all_ids c) in
+  let lE' := map (fun x => if j_sched (jc c x)
+                           then (maxl (tab lS' x) (map (tab lE) (members c x)) + shut_len c x)%N
+                           else (tab lS' x + durN c x)%N) (all_ids c) in
+  (lS', lE').
+Fixpoint iter_roundH (k : nat) (c : cfg) (SE : list N * list N) : list N * list N :=
+  match k with 0 => SE | S k' => iter_roundH k' c (roundH c SE) end.
+Definition solveH (c : cfg) : list N * list N :=
+  iter_roundH (2 * njobs c + 2) c (map (fun _ => 0%N) (all_ids c), map (fun _ => 0%N) (all_ids c)).
+
+Definition slackH (c : cfg) (S E : nat -> N) : Prop :=
+  forall n T, n < njobs c -> j_sched (jc c n) = true -> j_timeout (jc c n) = Some T ->
+    (maxl (S n) (map E (members c n)) < S n + T)%N.
